@@ -49,8 +49,28 @@ def vector(draw, domain, n, mag=MAG):
 def vector_pair(draw, domain, nmax=64, mag=MAG, nmin=1):
     """(x, y, kind) with the relationship classes the quantifiers ask for"""
     n = draw(st.one_of(st.integers(nmin, min(8, nmax)), st.integers(nmin, nmax)))
+    kind = draw(st.sampled_from(["indep", "indep", "indep", "onecoord", "proportional", "identical", "near", "long_large", "sparse"]))
+    if kind == "sparse" and domain in ("R", "NN", "NN0"):
+        # sparse / count data: most coordinates exactly zero, shared zero coordinates between the vectors
+        n = draw(st.integers(max(nmin, 2), min(nmax, 12)))
+        e = st.one_of(st.just(0.0), st.just(0.0), st.just(0.0), elem(domain, mag))
+        x = draw(st.lists(e, min_size=n, max_size=n))
+        y = draw(st.lists(st.one_of(e, elem(domain, mag)), min_size=n, max_size=n))
+        return x, y, kind
+    if kind == "sparse":
+        kind = "indep"
+    if kind == "long_large" and nmax >= 56:
+        # long vectors whose entries are all at the top of the magnitude range: sums / products of ~64 large terms
+        n = draw(st.integers(56, nmax))
+        big = st.floats(5e5, 1e6, allow_nan=False)
+        x = draw(st.lists(big, min_size=n, max_size=n))
+        y = draw(st.lists(big, min_size=n, max_size=n))
+        if domain in ("R", "RNZ"):
+            y = [-v for v in y]  # opposite signs: every |x_i - y_i| is above 1e6
+        return _fix_domain(domain, x, 1.0), _fix_domain(domain, y, 1.0), kind
+    if kind == "long_large":
+        kind = "indep"
     x = draw(vector(domain, n, mag))
-    kind = draw(st.sampled_from(["indep", "indep", "indep", "onecoord", "proportional", "identical", "near"]))
     if kind == "indep":
         y = draw(vector(domain, n, mag))
     elif kind == "identical":
